@@ -178,6 +178,8 @@ class MxSmtpRelay(Relay):
         rcpt = envelope.recipients[0]
         try:
             localpart, domain = rcpt.rsplit('@', 1)
+            if not domain:
+                raise ValueError(rcpt)
             return domain.lower()
         except ValueError:
             raise NoDomainError(rcpt)
